@@ -894,6 +894,17 @@ pub fn gen(stream: &str, tier: &str, seed: u64) -> Vec<String> {
                 }
             }
         }
+        "sib" => {
+            for v3 in [true, false] {
+                let fam = if v3 { "v3" } else { "v5" };
+                for f in sibling_frames(v3, thorough) {
+                    let h = hex(&f);
+                    out.push(format!("dec {} {}", fam, h));
+                    out.push(format!("poll {} {} - eof", fam, h));
+                    out.push(format!("spec {} {}", fam, h));
+                }
+            }
+        }
         "v3spec" | "v5spec" => {
             // the dec corpus (valid encodings, trailing bytes, mutations, short strings) through `spec`
             let fam = &stream[..2];
@@ -1507,6 +1518,70 @@ pub fn tiny_frames(fam: &str, thorough: bool) -> Vec<String> {
 /// name and value, topic, client id, user name, will fields), each in two variants: well-formed, and with a
 /// payload that is flagged as UTF-8 but is not.  A magic value that switches a check off is found by trying
 /// the values the source itself mentions.
+/// SUBSCRIBE / UNSUBSCRIBE lists whose SECOND filter is a one-edit neighbour of the first (a character inserted,
+/// replaced or deleted at every position, from the syntax characters, NUL and a letter), in both orders and after
+/// a repeated first element: a decoder that validates an element relative to its predecessor (shared prefix,
+/// sibling fast path) must reach the same verdict as one that validates it alone.
+pub fn sibling_frames(v3: bool, thorough: bool) -> Vec<Vec<u8>> {
+    let frame = |first: u8, body: Vec<u8>| {
+        let mut f = vec![first];
+        put_varint(&mut f, body.len());
+        f.extend(body);
+        f
+    };
+    let st = |b: &mut Vec<u8>, t: &[u8]| {
+        b.extend_from_slice(&(t.len() as u16).to_be_bytes());
+        b.extend_from_slice(t);
+    };
+    let mut bases: Vec<&str> = vec!["sensors/room1/temp", "a/b", "$share/g/sensors/room1/t", "aaaaaaaa/bbbbbbbb/c", "sensors/+/x", "sensors/#"];
+    if thorough {
+        bases.extend(["$SYS/broker/load/+", "/", "a//b/", "0123456/89abcdef/x/y", "+/+/+", "$share/grp/#"]);
+    }
+    let mut out = Vec::new();
+    for base in bases {
+        let b = base.as_bytes();
+        let mut edits: Vec<Vec<u8>> = Vec::new();
+        for p in 0..=b.len() {
+            for c in [b'#', b'+', b'/', 0u8, b'x', b'$'] {
+                let mut e = b.to_vec();
+                e.insert(p, c);
+                edits.push(e);
+                if p < b.len() && b[p] != c {
+                    let mut e = b.to_vec();
+                    e[p] = c;
+                    edits.push(e);
+                }
+            }
+            if p < b.len() {
+                let mut e = b.to_vec();
+                e.remove(p);
+                edits.push(e);
+            }
+        }
+        // … and with the tail after the edit dropped ("sensors/room1#"), where the edit ends the text
+        let more: Vec<Vec<u8>> = (1..b.len()).flat_map(|p| [b'#', b'+', 0u8].into_iter().map(move |c| { let mut e = b[..p].to_vec(); e.push(c); e })).collect();
+        edits.extend(more);
+        for e in edits {
+            for lists in [vec![b, &e[..]], vec![&e[..], b], vec![b, b, &e[..]]] {
+                let mut sub = vec![0, 5];
+                let mut uns = vec![0, 6];
+                if !v3 {
+                    sub.push(0);
+                    uns.push(0);
+                }
+                for t in &lists {
+                    st(&mut sub, t);
+                    sub.push(1);
+                    st(&mut uns, t);
+                }
+                out.push(frame(0x82, sub));
+                out.push(frame(0xa2, uns));
+            }
+        }
+    }
+    out
+}
+
 pub fn dictionary_frames() -> Vec<Vec<u8>> {
     let mut out = Vec::new();
     let st = |b: &mut Vec<u8>, t: &[u8]| {
